@@ -1818,8 +1818,7 @@ bool TypeChecker::checkExpression(expression_t expr)
     }
 
     case EXIT: {
-        assert(temp);
-        if (!temp->dynamic) {
+        if (temp == nullptr || !temp->dynamic) {  // no template at all when exit() is used at global level
             handleError(expr, "Exit can only be used in templates declared as dynamic");
             return false;
         }
